@@ -464,6 +464,18 @@ def _callback_rule(repo, L, cb, finder):
                             bound |= {x.id for x in ast.walk(t) if isinstance(x, ast.Name)}
             echo = [c for s in lp.body for c in [s, *walk_shallow(s)] if isinstance(c, ast.Call) and (dotted(c.func) or "").endswith(("echo", "print", "write"))]
             used = {x.id for c in echo for x in ast.walk(c) if isinstance(x, ast.Name)}
+            # follow locals of the loop body the message is assembled from
+            grew = True
+            while grew:
+                grew = False
+                for s_ in lp.body:
+                    if isinstance(s_, ast.Assign | ast.AugAssign):
+                        tg = {x.id for t in (s_.targets if isinstance(s_, ast.Assign) else [s_.target]) for x in ast.walk(t) if isinstance(x, ast.Name)}
+                        if tg & used:
+                            more = {x.id for x in ast.walk(s_.value) if isinstance(x, ast.Name)} - used
+                            if more - tg:
+                                used |= more
+                                grew = True
             ok5 = len(bound & used) >= 2 or bool(tgt_names & used)
             why5 = "the message does not show both fragments of the pair"
     L.check(ok5, "R5", rep.short, "one message per recorded pair showing both fragments", why5, rep.loc())
